@@ -55,6 +55,11 @@ CHECKS = {
          'Bounded exhaustive verification: for 12 small formulas x 8 switch combinations x 3 entry points every possible outcome of random.choice/shuffle is visited and the result is always one signed renaming plus one clause permutation; explicit arguments are accepted iff valid and applied exactly.',
          'Trusted: the RNG stub contract, CrossHair exhaustiveness accounting, the plain witness search. Outside: larger formulas.',
          'DESIGN.md section 3 C09'),
+ 'C13': ('CrossHair/z3 exploration of all outcomes of the random draws (nondeterministic RNG stub, bounded tape) + z3 equivalence of XOR blocks with parities and exhaustive error-boundary probing on sampled seeds',
+         'Bounded verification: for the stated tiny (k,n,m) and one planted assignment every outcome of the draws within the tape bound yields the promised shape or ValueError exactly at the boundary; '
+         'for k<=3, n<=4(5) the returned formulas for a few real seeds are checked structurally and semantically (sampling over seeds, exhaustive over sizes).',
+         'Trusted: RNG stub contract, CrossHair accounting, z3. Outside: draw sequences longer than the tape bound, all seeds.',
+         'DESIGN.md section 3 C13'),
 }
 NA = {}
 
